@@ -134,11 +134,13 @@ func (e *Exec) step(fr *Frame, st *State, in ssa.Instruction, b *ssa.BasicBlock,
 	case *ssa.RunDefers:
 		e.runDefers(fr, st)
 	case *ssa.Call:
+		ao := e.aoBefore(fr, st, x)
 		v, ok := e.call(fr, st, x)
 		if !ok {
 			return false
 		}
 		fr.vals[x] = v
+		e.aoAfter(fr, st, x, ao)
 	case *ssa.Jump:
 		e.flow(fr, st, b, b.Succs[0], st, incoming)
 		return false
